@@ -4,7 +4,10 @@
 (* torchtt/solvers.py and torchtt/_amen.py: begin {S, rx, nswp, kick,      *)
 (* max_full}, one event per core k < d-1 {swp, k, rows, cols, use_full,    *)
 (* r_tr, r_add, r_out, last}, end {rx, sweeps, last}.  Accepted iff it is  *)
-(* a behaviour of spec/Amen.tla.                                           *)
+(* a behaviour of spec/Amen.tla.  The ledger fields of the step events     *)
+(* (amen_mm: norm2, tail2, nsv, cap, crit = dx; amen_solve / amen_divide:  *)
+(* crit = res_old, res_new, res_tr; eps) are checked against the accuracy  *)
+(* ledger of spec/Dmrg.tla (LastChop, ResTrunc, Converged).                *)
 (***************************************************************************)
 EXTENDS Amen, Json, IOUtils
 Traces == JsonDeserialize(IOEnv.TRACE_FILE).traces
@@ -14,6 +17,8 @@ vars == <<tid, l, rx, wasLast>>
 ASSUME \A t \in 1..NT : TLCSet(t, 0)
 T == Traces[tid]
 d == Len(T.S)
+DeclaredAfter(s) == \/ \E j \in 1..Len(T.ev) : T.ev[j].swp = s + 1 /\ T.ev[j].last
+                    \/ (T.end.sweeps = s + 1 /\ T.end.last /\ \A j \in 1..Len(T.ev) : T.ev[j].swp = s => ~T.ev[j].last)
 Init == tid \in 1..NT /\ l = 1 /\ rx = Traces[tid].rx /\ wasLast = FALSE
 Next ==
     /\ l <= Len(T.ev)
@@ -31,6 +36,12 @@ Next ==
        /\ (T.max_full >= 0 => (e.use_full <=> rows * cols < T.max_full))      \* the documented choice of the local solver
        /\ (wasLast => e.last) /\ (wasLast /\ e.k = 0 => FALSE)
        /\ (e.k > 0 => e.last = T.ev[l - 1].last)                              \* the flag only changes between sweeps
+       /\ ("tail2_L" \in DOMAIN e /\ e.last /\ e.r_tr < e.cap /\ e.r_tr < e.nsv                      \* LastChop (amen_mm / amen_mv)
+             => LastChopOK(e.tail2_L, e.norm2_L, e.eps_L, T.dm1_L))
+       /\ ("res_tr_L" \in DOMAIN e /\ LMeasured(e.res_tr_L)                                          \* ResTrunc (amen_solve / amen_divide)
+             => ResTruncOK(e.res_tr_L, e.res_new_L, e.eps_L, T.sqrtd_L))
+       /\ ("crit_L" \in DOMAIN e /\ e.k = d - 2 /\ ~e.last /\ DeclaredAfter(e.swp)                  \* Converged
+             => \A j \in (l - (d - 2))..l : SmallCrit(T.ev[j].crit_L, e.eps_L))
        /\ rx' = [r0 EXCEPT ![e.k + 2] = e.r_out]
        /\ wasLast' = (IF e.k = d - 2 THEN e.last ELSE wasLast)
     /\ l' = l + 1
